@@ -84,8 +84,8 @@ FAMILIES = {
         rule='backlog states around the queue limit (50) and the in-flight limit (100), dispatch from main code and from handlers; '
              'non-trivial: a dispatch is rejected'),
     'C15': dict(
-        gens=[('core', dict(p_waitidle=0.35, tasklen=(2, 8), ntasks=(1, 3)), 0.6), ('core', dict(p_waitidle=0.3, p_timeout=0.4), 0.2),
-              ('chain', dict(p_timeout=0.3), 0.2)],
+        gens=[('core', dict(p_waitidle=0.35, tasklen=(2, 8), ntasks=(1, 3)), 0.35), ('core', dict(p_waitidle=0.3, p_timeout=0.4), 0.15),
+              ('chain', dict(p_timeout=0.3), 0.15), ('idle', dict(), 0.35)],
         facets=['idle', 'unfinished', 'queue', 'rest', 'history', 'results', 'activation', 'harness', 'other', 'runloop', 'recursion', 'timeout'],
         rule='wait_until_idle racing external and nested dispatches at offsets around the 0.1 s poll, after errors, timeouts, rejections, evictions; '
              'non-trivial: a wait_until_idle call overlaps at least one activation'),
@@ -103,6 +103,9 @@ FAMILIES = {
         gens=[('core', dict(p_expect=0.3, ntasks=(1, 3), tasklen=(2, 7)), 1.0)],
         facets=['expect', 'registry', 'handlers', 'lifecycle', 'activation', 'harness', 'other', 'timeout', 'results'],
         rule='event streams x include/exclude/raising predicates x timeouts x 1-3 concurrent expect() calls; non-trivial: an expect() is pending while an event of its type is processed'),
+    'C19': dict(engine='eng_retry', facets=[], rule='see eng_retry.py'),
+    'C20': dict(engine='eng_retry', facets=[], rule='see eng_retry.py'),
+    'C12': dict(engine='eng_results', facets=[], rule='see eng_results.py'),
 }
 
 BUDGET = {'quick': 480, 'thorough': 12000}
@@ -132,7 +135,7 @@ def gen_backlog(rng, **_):
     return sc
 
 
-GENS = {'core': gen.gen_core, 'backlog': gen_backlog, 'chain': gen.gen_chain, 'stop': gen.gen_stop}
+GENS = {'core': gen.gen_core, 'backlog': gen_backlog, 'chain': gen.gen_chain, 'stop': gen.gen_stop, 'idle': gen.gen_idle}
 
 
 def corpus(prop):
